@@ -152,7 +152,12 @@ class DecoratorRegistry:
                 State.set(test_handshake[0], test_handshake[1])
         await dm.start()
 
-        ret = await dm.wait_until()
+        try:
+            ret = await dm.wait_until()
+        finally:
+            # release every subscription also when the waiting task is cancelled
+            if dm.status is DecoratorManagerStatus.RUNNING:
+                await dm.stop()
 
         return ret
 
